@@ -50,3 +50,30 @@ func verif_UnmarshalString(q *BandwidthQuantity, s string) {
 func verif_quantity_accessors(q *BandwidthQuantity) {
 	verif.Assert(q.String() == q.s && q.Bytes() == q.i, "accessors_report_text_and_bytes")
 }
+
+// NewPortsRangeSliceFromString, the text form of allowPorts ("2001" or
+// "1000-2000", comma separated; C18: the text a range prints as parses back): a
+// range is refused only when it cannot be read as numbers or runs backwards - a
+// one-port range "n-n" is a range. (Exit check: every return from inside the
+// loop is an error return; when both numbers of a two-part entry were read, the
+// entry is refused only if the second is smaller than the first.)
+//
+//verif:loopexit ~/pkg/config/types.NewPortsRangeSliceFromString 1 check=verifPortsRangeRefusal args=numArray
+func verifPortsRangeRefusal(numArray []string) bool {
+	const ev = "strconv.ParseInt"
+	if len(numArray) != 2 || !verif.CalledInIter(ev+"@1") {
+		return true
+	}
+	if verif.IterRet[error](ev+"@1", 1) != nil || verif.IterRet[error](ev, 1) != nil {
+		return true
+	}
+	return verif.IterRet[int64](ev, 0) < verif.IterRet[int64](ev+"@1", 0)
+}
+
+//verif:contract ~/pkg/config/types.NewPortsRangeSliceFromString
+//verif:props C18
+//verif:kinds loop,post
+func verif_NewPortsRangeSliceFromString(str string) {
+	verif.ResetEvents()
+	_, _ = NewPortsRangeSliceFromString(str)
+}
